@@ -7,7 +7,7 @@ HOOK_COMMITS = ["c341338", "65a25d2", "21b6488", "b38e07e", "74004a6"]  # abbrev
 CLAIMED = {
  # id: (engine, category, technique, level text, level note, design ref)
  "C13": ("LOGRT", "exploration",
-         "property-based round-trip + metamorphic hash sensitivity (rapid), native fuzz of the JSON decoder in the thorough tier",
+         "property-based round-trip + metamorphic hash sensitivity (rapid) on constructor-built chains and on entries written by a real Commander; native fuzz of the JSON decoder in the thorough tier",
          "Generated chains of every log kind x target are pushed through the API JSON form and through an emulated store row and must come back equal and re-hash to the stored hash; exploration of a generated input space with shrinking, not a proof.",
          "Trusted: the jsonb/timestamptz emulation (generic decode with exact numbers, instant truncated to microseconds); log dates are ledger.Now()-shaped (UTC, microseconds); no NUL in strings.",
          "DESIGN.md 5/C13"),
@@ -27,13 +27,13 @@ CLAIMED = {
          "Trusted: the reference interpreter (a disagreement is triaged before it is reported; one known finding listed).",
          "DESIGN.md 5/C08"),
  "C12": ("NUMGEN", "exploration",
-         "property-based robustness testing (loose AST generator, token/byte mutation, splicing) with panic / watchdog / A-B-A oracle; native go fuzzing in the thorough tier",
+         "property-based robustness testing (loose AST generator, token/byte mutation, splicing) with panic / watchdog / A-B-A oracle, a long-lived real engine fed with the same inputs plus keyed writes of every kind, and scheduled engine histories (no request may panic); native go fuzzing in the thorough tier",
          "No panic in any stage nor in rendering errors, termination within a watchdog, and A-B-A repeatability through the shared compilation cache, over loosened programs, hostile bindings and mutated text; plus coverage-guided native fuzzing (thorough).",
          "Trusted: watchdog expiry is a hang only when it repeats on a solitary re-run.",
          "DESIGN.md 5/C12"),
 
  "C18": ("HTTPSIM", "exploration",
-         "property-based testing of the real v2 router over a recording fake backend with generated failure patterns; positional reference model of results, executed set and status",
+         "property-based testing of the real v2 router over a recording fake backend with generated failure patterns; positional reference model of results, executed set and status; a real-engine family (persisted log == successful elements in order) and a concurrent stress family (parallel clients, per-request positional oracle; the schedule is not owned there)",
          "Generated bulk bodies (all actions, unknown actions, per-element keys, failure patterns, flag values) are served by the real router; the backend calls and the response must match a positional model derived from the property statement.",
          "Trusted: the fake backend (answers from the generated pattern); error-code expectations are limited to the mappings visible in the handler.",
          "DESIGN.md 5/C18"),
@@ -45,7 +45,7 @@ CLAIMED = {
 
  "C04": ("SQLREC", "exploration",
          "PARTIAL: metamorphic property-based testing of the SQL text per ledger name (recording driver + PostgreSQL lexer); fold-based oracles for the Go-side volume derivations and for storage.InMemoryStore",
-         "PARTIAL CLAIM. The SQL/plpgsql projection (triggers, volume functions, point-in-time reads) cannot be executed without PostgreSQL and is not covered. Covered: (a) every read method's SQL depends on the ledger name exactly through string constants and every statement on a ledger-scoped table carries it (ledger isolation); (b) Go-side volume derivations equal the fold; (c) InMemoryStore equals the fold; (d) the aggregated-balances statement built in Go (point-in-time bound, address filters, ledger predicate) evaluated over a Go model of the moves table equals the fold of that ledger's entries up to the instant.",
+         "PARTIAL CLAIM. The SQL/plpgsql projection (triggers, volume functions, point-in-time reads) cannot be executed without PostgreSQL and is not covered. Covered: (a) every read method's SQL depends on the ledger name exactly through string constants, and every SELECT block (sub-selects, CTE bodies, lateral joins) that reads a ledger-scoped table restricts the ledger itself or joins on a seq key (ledger isolation); (b) Go-side volume derivations equal the fold; (c) InMemoryStore equals the fold; (d) the aggregated-balances statement built in Go (point-in-time bound, address filters, ledger predicate) evaluated over a Go model of the moves table equals the fold of that ledger's entries up to the instant; (e) transactions read back with expand=volumes / effectiveVolumes report the replay's pre- and post-commit volumes (the Go-side derivation in ExpandedTransaction.toCore), for rows the replay defines.",
          "Trusted: bun renders arguments into the statement text; the PostgreSQL lexer; the harness fold; for (d) the harness's model of what the insert trigger writes into moves (one row per posting side, running volumes, insertion date = log date, effective date = transaction timestamp). NOT covered: 0-init-schema.sql behaviour.",
          "DESIGN.md 5/C04 and 6"),
  "C15": ("LOCKSIM", "exploration",
@@ -72,7 +72,7 @@ CLAIMED = {
 
  "C02": ("ENGINE-SIM", "exploration",
          "stateful property-based testing with a harness-owned scheduler (rapid + testing/synctest); invariant over the persisted history (independent fold, per-debit floor)",
-         "Generated sets of concurrent creates/reverts run on the real Commander/locker/batcher under generated interleavings; the persisted log is folded independently and every debit must respect the balance at its log position. Exploration: many histories x schedules, no exhaustiveness.",
+         "Generated sets of concurrent creates/reverts run on the real Commander/locker/batcher under generated interleavings, with callers that go away at generated points, failing store reads and a slow store; the persisted log is folded independently and every debit must respect the balance at its log position. Exploration: many histories x schedules, no exhaustiveness.",
          "Trusted: model store in place of PostgreSQL (reads see exactly the committed batches); interleavings at gate granularity (store calls, monitor calls, verifhook points); the harness fold.",
          "DESIGN.md 5/C02"),
  "C05": ("ENGINE-SIM", "exploration",
@@ -81,12 +81,12 @@ CLAIMED = {
          "Trusted: model store; crash = goroutines stop at their next gate and un-inserted batches vanish; storeform emulation for the read-back recomputation.",
          "DESIGN.md 5/C05"),
  "C06": ("ENGINE-SIM", "fault_enumeration",
-         "per generated history, exhaustive enumeration of every crash position and every single InsertLogs failure; bijection oracle between success responses and persisted entries",
+         "per generated history, exhaustive enumeration of every crash position and every single InsertLogs failure (1 case in 20), plus sampled single runs with crash points, a store fault, failing reads and cancellations drawn with the plan (19 in 20); bijection oracle between success responses and persisted entries",
          "For each generated history and schedule the check re-runs it once per scheduler step with the process dying there, and once per InsertLogs call failing: exhaustive over single crash points / single store faults of that history; histories themselves are sampled.",
          "Trusted: model store; the crash model (see DESIGN.md 4.2); attribution of entries to requests through request-chosen tags.",
          "DESIGN.md 5/C06"),
  "C07": ("ENGINE-SIM", "exploration",
-         "stateful property-based testing: duplicated keyed requests x schedules x restart; invariant: <=1 entry per key, equal outcomes",
+         "stateful property-based testing: duplicated keyed requests x schedules x restart x failing store reads x cancellations; invariant: <=1 entry per key, equal outcomes",
          "Generated groups of identical keyed requests (all write kinds) are issued sequentially, racing and across a crash; at most one entry may carry the key and every success must return it.",
          "Trusted: model store; read-back of the keyed log through the storeform emulation.",
          "DESIGN.md 5/C07"),
@@ -96,12 +96,12 @@ CLAIMED = {
          "Trusted: model store (reverted flag served from the harness fold; the SQL projection of the flag is outside, see C04).",
          "DESIGN.md 5/C10"),
  "C11": ("ENGINE-SIM", "exploration",
-         "stateful property-based testing: same-reference creates x schedules x competitor outcome x faults; invariant over persisted history and error classes",
+         "stateful property-based testing: same-reference creates (incl. previews and bursts without a common account lock) x reverts of the holder x schedules x competitor outcome x faults; invariant over persisted history and error classes",
          "Generated groups of creates sharing a reference race each other and the persistence of competitors; at most one committed transaction per reference, refusals are CONFLICT, no spurious CONFLICT.",
          "Trusted: model store (reference lookup sees committed batches only).",
          "DESIGN.md 5/C11"),
  "C14": ("ENGINE-SIM", "exploration",
-         "metamorphic property-based testing: history with previews vs without vs preview-made-real, byte-level comparison of log, responses and events",
+         "metamorphic property-based testing: history with previews vs without vs preview-made-real, byte-level comparison of log, responses and events; plus a concurrent family (half of the cases) in which previews race real writes and the no-effect clauses are history invariants",
          "Three-way metamorphic relation on generated sequential histories with restarts: inserting previews must change nothing observable, and a preview must answer what the real write answers.",
          "Trusted: model store; the bubble's fake clock (stands still, so hashes are comparable).",
          "DESIGN.md 5/C14"),
